@@ -166,7 +166,7 @@ func oracleCase(t *testing.T, lines [][]string) string {
 			synctest.Wait()
 		}()
 		head := lines[0]
-		if len(head) < 4 || strings.HasPrefix(head[2], "join") || strings.HasPrefix(head[2], "mem") {
+		if len(head) < 4 || strings.HasPrefix(head[2], "join") || strings.HasPrefix(head[2], "mem") || strings.HasPrefix(head[2], "exact") {
 			return // the join streams are checked by the Lean side only
 		}
 		tr, ok := parseTransform(head[3])
